@@ -10,6 +10,7 @@ from ._helper import (
     _create_name_annotation,
     _get_shortest_public_reexport,
     _replace_if_safeds_keyword,
+    _replace_if_safeds_keyword_in_path,
 )
 
 if TYPE_CHECKING:
@@ -150,7 +151,7 @@ def _create_outside_package_class(
             module_name_info = ""
             if python_module_path != module_path_camel_case:
                 module_text += f'@PythonModule("{python_module_path}")\n'
-            module_text += f"{module_name_info}package {module_path_camel_case}\n"
+            module_text += f"{module_name_info}package {_replace_if_safeds_keyword_in_path(module_path_camel_case)}\n"
 
             module_text += _create_outside_package_class_text(class_name, naming_convention)
 
